@@ -35,8 +35,10 @@ const c05NReqs = 7
 // c05Req builds request k; parameter values are symbolic one-byte segments
 func c05MkReq(k int) c05Req {
 	seg := func() string {
-		x := vxStringN(1)
-		vxAssume(x[0] != '/')
+		x := vxStringN(vxParam("segLen"))
+		for i := 0; i < len(x); i++ {
+			vxAssume(x[i] != '/')
+		}
 		return x
 	}
 	switch k {
